@@ -26,11 +26,8 @@ def run(rep, tier, seed, pa):
         for soft in (False, True):
             per_mode = {}
             for mode in MODES:
-                items = []
-                for case in cases:
-                    res = ac.align_case(pa, case, mode, soft=soft)
-                    res["mode"] = mode
-                    items.append((case, res))
+                items = list(zip(cases, ac.align_many(pa, [(case, mode, soft) for case in cases])))
+                for case, res in items:
                     if res["error"] is None and [str(s) for s in res["solvers"]] != EXPECTED[mode]:
                         rep.violation("solver-selection", {"units": case["units"], "dissim": case["spec"], "mode": mode, "soft": soft,
                                                            "solvers": [str(s) for s in res["solvers"]]},
